@@ -357,7 +357,7 @@ func (s *Solver) SolveAll(obls []*Obligation) {
 }
 
 // secondChance: an obligation that failed without any back end answering `sat` (time-outs and `unknown` only) is tried
-// once more with three times the time and little parallelism, after everything else is done. On a loaded or slower
+// once more with twice the time and little parallelism, after everything else is done. On a loaded or slower
 // machine a proof that normally takes a second can miss the time-out; reporting that as a violation would be a false
 // alarm. A genuinely failing obligation fails again (it only costs time); nothing is ever turned into a pass without an
 // `unsat` answer.
@@ -371,10 +371,10 @@ func (s *Solver) secondChance(obls []*Obligation) {
 			again = append(again, i)
 		}
 	}
-	if len(again) == 0 || len(again) > 16 {
+	if len(again) == 0 || len(again) > 10 {
 		return
 	}
-	r := &Solver{Dir: s.Dir, Timeout: s.Timeout * 3, Agreement: s.Agreement, Par: 3, Prelude: s.Prelude, QFPrelude: s.QFPrelude, Eng: s.Eng, Seed: s.Seed + 1, noRetry: true}
+	r := &Solver{Dir: s.Dir, Timeout: s.Timeout * 2, Agreement: s.Agreement, Par: 5, Prelude: s.Prelude, QFPrelude: s.QFPrelude, Eng: s.Eng, Seed: s.Seed + 1, noRetry: true}
 	sem := make(chan struct{}, r.Par)
 	var wg sync.WaitGroup
 	for _, i := range again {
